@@ -6,7 +6,7 @@
 set -u
 t="$1"; shift
 cd /verif
-export GOFLAGS=-mod=mod GOPROXY=off; unset GOWORK
+export GOFLAGS="-mod=mod -trimpath" GOPROXY=off; unset GOWORK
 names="$@"; [ -z "$names" ] && names=$(ls seeded)
 run() {
   n="$1"; t="$2"
